@@ -30,16 +30,16 @@ def generate(rng, tier, n):
     cases = []
     cid = 0
     seed = rng.randrange(1 << 40)
-    # games built, solved with the production samplers and dropped one after the other in one process, same shape but
-    # different chance weights: nothing computed for one game may be reused for the next
-    for w in (0.1, 0.9, 0.2, 0.85):
-        t, st = blind_bet_tree(w)
-        m_ = rng.choice(["sampled", "external"])
-        cb = CaseBuilder(cid, t, {"stats": st, "method": m_, "preset": "dcfr", "threads": 1, "live": True, "stat_runs": []})
+    # parameter sweeps: games of one shape but different chance weights built, solved with the production samplers,
+    # evaluated and dropped one after the other in one process: nothing computed for one game may be reused for the next
+    for m_, k in (("sampled", 1), ("external", 1), ("sampled", 4), ("external", 3)):
+        ws = [0.1, 0.9, 0.2, 0.85, 0.3, 0.75]
+        trees = [blind_bets_tree(w, k)[0] for w in ws]
+        t, st = blind_bets_tree(ws[0], k)
+        cb = CaseBuilder(cid, t, {"stats": st, "method": m_, "preset": "dcfr", "threads": 1, "stat_runs": []})
         cb.meta["scope"] = set()
-        s = cb.solve(m_, 4000, 0.0, 1, "dcfr", None, kind="solve_long")
-        cb.info(s, kind="info_long")
-        cb.meta["stat_runs"].append((4000, len(cb.ops) - 2))
+        cb.meta["sweep"] = {"trees": trees, "method": m_, "iters": 4000, "threads": 1, "params": "dcfr"}
+        cb.meta["sweep_k"] = k
         cases.append(cb)
         cid += 1
     while len(cases) < n:
@@ -107,6 +107,22 @@ def blind_bet_tree(w):
     def p1(sign):
         return {"p": 1, "i": 1, "a": [[1, p2(sign * 1.0, 21)], [2, p2(-sign * 1.0, 22)]]}
     t = {"c": None, "o": [[f2b(w), p1(1.0)], [f2b(1.0 - w), p1(-1.0)]]}
+    return t, tree_stats(t)
+
+
+def blind_bets_tree(w, k):
+    """k independent blind bets, one of them picked uniformly at the root (its own coin, its own infosets): the regret
+    of a profile is the average of its regrets in the k subgames"""
+    from ..gen import tree_stats
+
+    def sub(j):
+        def p2(x, info):
+            return {"p": 2, "i": 100 + 2 * j + info, "a": [[1, {"t": f2b(x)}], [2, {"t": f2b(x - 0.25)}]]}
+
+        def p1(sign):
+            return {"p": 1, "i": j, "a": [[1, p2(sign * 1.0, 0)], [2, p2(-sign * 1.0, 1)]]}
+        return {"c": 10 + j, "o": [[f2b(w), p1(1.0)], [f2b(1.0 - w), p1(-1.0)]]}
+    t = {"c": 1, "o": [[f2b(1.0), sub(j)] for j in range(k)]}
     return t, tree_stats(t)
 
 
@@ -179,6 +195,21 @@ def monitor(cb, impl):
     for o in impl["ops"]:
         if isinstance(o, dict) and "panic" in o:
             hits.append(("panic: %s" % o["panic"], "panic"))
+    if m.get("sweep"):
+        # the envelope with per-infoset payoff ranges (the CFR bound is a sum over infosets of range_i*sqrt(A)/sqrt(T)):
+        # in the uniform mixture of k independent subgames every counterfactual value carries the factor 1/k, so the
+        # 3k infosets contribute (D/k)*sqrt(A)/sqrt(T) each: 3*D*sqrt(A)/sqrt(T) with D = 2.25, A = 2, whatever k
+        res = impl["ops"][0].get("ok") if impl["ops"] else None
+        T = m["sweep"]["iters"]
+        env = 2.25 * 3 * math.sqrt(2) / math.sqrt(T)
+        for j, r in enumerate(res or []):
+            reg = b2f(r[3])
+            if not (reg < env):
+                hits.append(("sweep of %d games (%s, T=%d) in one process: game %d (coin weight %r) is returned with true regret %r, not below D*N*sqrt(A)/sqrt(T) = %r"
+                             % (len(res), m["method"], T, j, [0.1, 0.9, 0.2, 0.85, 0.3, 0.75][j], reg, env), "sweep"))
+        if res is None:
+            hits.append(("sweep not executed: %r" % impl["ops"], "sweep"))
+        return hits
     for T, k in m["stat_runs"]:
         s, info = impl["ops"][k], impl["ops"][k + 1]
         if "ok" not in s or "ok" not in info:
